@@ -1,5 +1,6 @@
 """L6 FIELD-FLOW, L7 WAV-ASSEMBLY, L8 WINDOW-FORMULAS, B5/B6 handler maps  (C01, C02, C03, C04, C20)."""
 import ast
+import re
 from ..core.loader import clone as _clone
 
 from ..core.loader import AnalysisError, dotted, norm, own_nodes, where, enclosing_class
@@ -73,7 +74,15 @@ def _padded_general(ctx):
     fn = ctx.fn("smpl_extract/util/constructs.py", "PaddedGeneral._parse", "L6")
     prs = [p for p in run_paths(ctx, fn, rule="L6") if p.end == "return"]
     want = "(Filter(self.predicate,Array(evaluate(self.count,context),self.subcon)))._parse(stream,context,path)"
-    ok = bool(prs) and all(p.ret is not None and p.ret.key() == want for p in prs)
+    # the same selection written as a comprehension over the parsed array (Filter calls predicate(obj, context) on each element)
+    want2 = re.compile(r"comp\(_c0 for _c0 in \(Array\(evaluate\(self\.count,context\),self\.subcon\)\)\._parse(report)?\(stream,context,path\) if truthy\((self\.predicate|\w+)\(_c0,context\)\)\)")
+    def _is_pred(p_, m_):
+        nm = m_.group(2)
+        if nm == "self.predicate":
+            return True
+        v_ = p_.env.get(nm) if hasattr(p_, "env") and p_.env else None
+        return v_ is not None and v_.key() == "self.predicate"
+    ok = bool(prs) and all(p.ret is not None and (p.ret.key() == want or (want2.fullmatch(p.ret.key()) and _is_pred(p, want2.fullmatch(p.ret.key())))) for p in prs)
     det = ""
     if not ok:
         # the same selection written as a comprehension over the parsed array
@@ -367,8 +376,21 @@ def rule_L6(ctx):
         calls = [c for c in own_nodes(fn) if isinstance(c, ast.Call) and isinstance(c.func, ast.Name) and c.func.id == clsname]
         ok = len(calls) == 1
         if ok:
-            stars = sorted(norm(k.value) for k in calls[0].keywords if k.arg is None)
-            ok = stars in (["common_args", "options_args"], ["common_params", "options_params"])
+            # on every path the constructor receives the two field groups copied from the parsed record (however the keyword
+            # arguments are assembled)
+            n_seen = 0
+            for p_ in run_paths(ctx, fn, rule="L6", limit=4000):
+                for c_, e_, st_ in calls_on(p_):
+                    if c_ is not calls[0]:
+                        continue
+                    n_seen += 1
+                    from ..core.terms import _split_top as _st
+                    k_ = evaluator(ctx, fn, e_).ev(c_).key()
+                    inner = k_[len(clsname) + 1:-1]
+                    stars = sorted(x for x in _st(inner, ",") if x.startswith("**"))
+                    ok = ok and len(stars) == 2 and stars[0].startswith("**get_common_field_args(SampleParamCommon,") \
+                        and stars[1].startswith("**get_common_field_args(SampleParamOptionsSection,")
+            ok = ok and n_seen >= 1
         ctx.ob("L6", calls[0] if calls else fn, f"{clsname} receives both the common parameters and the option nibbles", ok, "", inst=f"{clsname}-kwargs")
     # VelocityZone(**sanitize_container(zone), **aux)
     ka = ctx.fn(AK + "keygroup.py", "KeygroupAdapter._decode", "L6")
